@@ -197,7 +197,14 @@ def h(t, part):
         orig_send = w.s._send_eio_packet
 
         def boom_sender(eio_sid, pkt, orig=orig_send):
-            if boom_send['on'] and boom_send['on'] in str(pkt.data):
+            hit = False
+            if boom_send['on'] and isinstance(pkt.data, str):
+                try:
+                    d = w.P(encoded_packet=pkt.data).data
+                    hit = isinstance(d, list) and d and d[0] == boom_send['on']
+                except Exception:
+                    hit = False
+            if hit:
                 if asyncio_:
                     async def f():
                         if boom_send.get('cancelled'):
